@@ -241,8 +241,8 @@ E('clock', lambda s: etl.clock(s), stream=0, group='passthrough')
 E('fromdicts(dicts)', lambda s: etl.fromdicts(etl.dicts(s), header=['f0', 'f1', 'f2']), stream=0, group='io')
 E('fromcolumns(columns)', lambda s: etl.fromcolumns(list(etl.columns(s).values()), header=['f0', 'f1', 'f2']), group='io', c01=True)
 # lookups
-E('lookup', lambda s: etl.lookup(s, 'f0'), kind='scalar', group='lookups')
-E('lookupone', lambda s: etl.lookupone(s, 'f0'), kind='scalar', group='lookups')
+E('lookup', lambda s: etl.lookup(s, 'f0'), kind='scalar', group='lookups', ragged=False)
+E('lookupone', lambda s: etl.lookupone(s, 'f0'), kind='scalar', group='lookups', ragged=False)
 E('dictlookup', lambda s: etl.dictlookup(s, 'f0'), kind='scalar', group='lookups')
 E('dictlookupone', lambda s: etl.dictlookupone(s, 'f0'), kind='scalar', group='lookups')
 E('recordlookup', lambda s: etl.recordlookup(s, 'f0'), kind='scalar', group='lookups')
@@ -271,7 +271,7 @@ E('look-simple', lambda s: repr(etl.look(s, style='simple', limit=2)), kind='sca
 E('look-minimal', lambda s: repr(etl.look(s, style='minimal', index_header=True)), kind='scalar', group='vis')
 # unjoin
 E('unjoin', lambda s: etl.unjoin(s, 'f2', key='f1'), kind='multi', group='joins')
-E('unjoin-nokey', lambda s: etl.unjoin(s, 'f2'), kind='multi', group='joins')
+E('unjoin-nokey', lambda s: etl.unjoin(s, 'f2'), kind='multi', group='joins', ragged=False)
 
 # ---------------------------------------------------------------------------
 # binary: joins (second input has fields f0, g1)
